@@ -706,7 +706,7 @@ def _orphan_relocation_scenario(rng):
     return "cfg bits=8 imax=1048576 pmax=100 timeout_ms=3000\n" + "\n".join(setup) + "\n" + "".join("thread %s %s\n" % t for t in th) + \
            "schedule " + " ".join(sched + ["T0"] * 6) + "\n"
 
-def _gc_model_case(txt, r):
+def _gc_model_case(txt, r, cache=False):
     """Translate a finished run of a gcmodel=<nsup> scenario (a caller or two on K next to one primary GC cycle that relocates K's first record)
     into a case of ConcGC.gc_case: abstract keys, values and locations; the observed events become 'run thread t until it has done X'."""
     m = re.search(r"gcmodel=(\d+|dyn)", txt.split("\n")[0])
@@ -741,7 +741,7 @@ def _gc_model_case(txt, r):
             if f[2] == "put":
                 calls.append("APut %d %d" % (kid(f[3]), vid(f[4])))
             elif f[2] in ("get", "has", "size"):
-                calls.append("AGet %d" % kid(f[3]))
+                calls.append("AGet %d %s" % (kid(f[3]), "true" if cache else "false"))
             elif f[2] == "remove":
                 calls.append("ARemove %d" % kid(f[3]))
             elif f[2] == "pgc":
@@ -749,7 +749,7 @@ def _gc_model_case(txt, r):
                 # dynamic family: the hand-over is the one entry of T1's write (flushed by F1), nothing is relocated (one primary file)
                 calls.append("APgc 1 []" if dyn else "APgc %d [%d]" % (nsup, nsup))
             elif f[2] == "flush" and dyn:
-                calls.append("AGet 0")                           # (the model has no Flush: a lookup of a key nobody uses keeps the thread numbers aligned)
+                calls.append("AGet 0 false")                     # (the model has no Flush: a lookup of a key nobody uses keeps the thread numbers aligned)
             else:
                 return None
     wkeys = collections.Counter(l.split()[3] for l in txt.split("\n") if l.startswith("thread ") and l.split()[2] in ("put", "remove"))
@@ -874,10 +874,10 @@ def _conc_scenarios(rng, n, gc):
                 sched = ["T0"] * 2 + [rng.choice(names[1:]) for _ in range(rng.randint(10, 40))] + ["T1"] * 8 + ["F1"] * 12 + ["G1"] * 12
             # with ONE primary file (nothing is relocated) and the phases in sequence the run is replayed on the location-protocol model: the
             # hand-over is then exactly the one entry T1's write produced and the flush wrote
-            # NOT replayed on the location-protocol model: the primary serves a record from its write pool (the last flushed batch stays readable)
-            # even after the collector marked it dead in the file, so the parked reader may answer the OLDER value where the model - which has no
-            # read cache - looks the key up again; both answers are linearizable, the results differ (a false alarm of a first version of this replay)
-            gcm = False
+            # replayed on the location-protocol model under BOTH resolutions of its read cache: the primary may still serve a record from its
+            # write pool (the last flushed batch stays readable) after the collector marked it dead in the file; the parked reader then answers
+            # the value it looked up, otherwise it asks the index again - the model must reproduce the run under one of the two ([AGet k cache])
+            gcm = pmax == 1048576
             scen.append("cfg bits=8 imax=1048576 pmax=%d timeout_ms=3000%s\n" % (pmax, " quiet_ms=3000 gcmodel=dyn" if gcm else "") + "\n".join(setup) + "\n" +
                         "".join("thread %s %s\n" % t for t in th) + "schedule " + " ".join(sched + ["T0"] * 4 + ([t[0] for t in th] * 6 if gcm else [])) + "\n")
             continue
@@ -1026,11 +1026,16 @@ def _lin_check(ctx, gc):
     if gc:
         for (txt, r, raw) in res:
             if " gcmodel=" in txt.split("\n")[0]:
-                gcase = _gc_model_case(txt, r)
-                if gcase:
-                    gterms.append((txt, gcase))
+                for cache in ((False, True) if " gcmodel=dyn" in txt.split("\n")[0] else (False,)):
+                    gcase = _gc_model_case(txt, r, cache)
+                    if gcase:
+                        gterms.append((txt + ("#cache" if cache else ""), gcase))
     gmism, gcoq_s = C.coq_replay(gterms, wd, header="From STH Require Import Log Conc ConcGC.\nFrom Coq Require Import List NArith. Import ListNotations. Open Scope N_scope.\n",
                                  ctor_list="gc_case", fn="gc_mismatches") if gterms else ([], 0.0)
+    # a run of the dynamic family is explained if the model reproduces it under one resolution of the read cache
+    bad_names = {n for n, _ in gmism}
+    gmism = [(n, x) for n, x in gmism if not ((n.endswith("#cache") and n[:-6] not in bad_names) or (not n.endswith("#cache") and " gcmodel=dyn" in n.split("\n")[0] and n + "#cache" not in bad_names))]
+    gscen = len({n[:-6] if n.endswith("#cache") else n for n, _ in gterms})
     if gmism and not viol:
         txt = gmism[0][0]
         rp = C.save_replay(prop, "gccorr-%s.scn" % hashlib.sha1(txt.encode()).hexdigest()[:10],
@@ -1044,8 +1049,8 @@ def _lin_check(ctx, gc):
                            "# on %d of %d replayed scenarios; the linearizability oracle found no failing scenario among %d\n%s" % (len(mism), len(mterms), len(scen), txt))
         viol.append(("correspondence: atomic-step model and implementation disagree on %d of %d scenarios" % (len(mism), len(mterms)), rp, False))
     return viol, {"evaluations": len(scen), "distinct_nontrivial": len(nontriv), "scenarios_with_real_interleaving": interleaved,
-                  "scenarios_replayed_on_the_atomic_step_model": len(mterms), "traces_validated_against_impl": len(mterms) - len(mism) + len(gterms) - len(gmism),
-                  "scenarios_replayed_on_the_location_protocol_model": len(gterms),
+                  "scenarios_replayed_on_the_atomic_step_model": len(mterms), "traces_validated_against_impl": len(mterms) - len(mism) + gscen - len({n[:-6] if n.endswith("#cache") else n for n, _ in gmism}),
+                  "scenarios_replayed_on_the_location_protocol_model": gscen,
                   "correspondence_mismatches": len(mism) + len(gmism), "coq_replay_s": round(coq_s + gcoq_s, 1),
                   "samples": [{"scenario": scen[-1].strip().split("\n")}],
                   "schedule_rule": "2-4 calls (Put/Get/Has/GetSize/Remove/Flush" + (" + 1-2 GC cycles (primary / index) over flushed garbage in small files" if gc else "") +
